@@ -443,8 +443,13 @@ fn validate_with<S: SignedHeaderRequirements>(
     reqs: &S,
 ) -> (Res, u32) {
     let opts = SignatureOptions { s3: cfg.s3, url_encode_form: cfg.fold };
-    let r = catch_unwind(AssertUnwindSafe(|| {
-        block_on(sigv4_validate_request(http_req, &cfg.region, &cfg.service, prov, now, reqs, opts), 100_000)
+    // all three body conversions of the public API are exercised, chosen deterministically from the request
+    let body_len = http_req.body().len();
+    let selector = (http_req.uri().to_string().len() + http_req.headers().len() + body_len) % 3;
+    let r = catch_unwind(AssertUnwindSafe(|| match selector {
+        0 if body_len == 0 => block_on(sigv4_validate_request(http_req.map(|_| ()), &cfg.region, &cfg.service, prov, now, reqs, opts), 100_000),
+        1 => block_on(sigv4_validate_request(http_req.map(|b| b.to_vec()), &cfg.region, &cfg.service, prov, now, reqs, opts), 100_000),
+        _ => block_on(sigv4_validate_request(http_req, &cfg.region, &cfg.service, prov, now, reqs, opts), 100_000),
     }));
     match r {
         Err(p) => {
